@@ -317,7 +317,9 @@ def updLastOp (s : Store) (gid : Nat) (k : Nat × Nat × Nat) : Store × String 
 def relaysOf (s : Store) (gid : Nat) : Option (List Nat) :=
   if (findGroup s gid).isNone then none else some ((alookup gid s.relays).getD [])
 
-def relayLen (r : Nat) : Nat := if r < 1000 then 24 else r
+/-- byte length of the relay URL the harness builds for relay number `r` (harness/src/store.rs `relay_url`): a short url
+    below 1000, a url of exactly `r` bytes below 10^6, a url of exactly `r / 10^6` bytes above (boundary stream) -/
+def relayLen (r : Nat) : Nat := if r < 1000 then 24 else if r < 1000000 then r else r / 1000000
 
 def natLt (a b : Nat) : Bool := a < b
 
